@@ -38,6 +38,9 @@ def spellings(dialect, given, free):
     return out
 
 
+WIDE = ' _-+.*/@'      # characters a free value may contain besides letters and digits (no ; = ] , } of the syntax)
+
+
 class C14(core.Prop):
     ID = 'C14'
     FUNCTIONS = ['_parse_dialect_string', 'check_and_cast_types', 'create_dialect', 'read_cgsmiles',
@@ -83,6 +86,11 @@ class C14(core.Prop):
                                     forms = forms[:2]
                             for form in forms:
                                 out.append({'mode': level, 'given': list(given), 'free': list(free), 'numform': form})
+        # free values that are not plain words
+        for level in ('node', 'atom', 'cgatom'):
+            for free in ([fk[0]], [fk[-1]]) if tier == 'quick' else [[k] for k in fk]:
+                out.append({'mode': level, 'given': [], 'free': list(free), 'numform': nf[0], 'wide': True})
+                out.append({'mode': level, 'given': ['w'], 'free': list(free), 'numform': nf[0], 'wide': True})
         # carry-through the resolver
         reuse = (2,) if tier == 'quick' else (1, 2, 3)
         for n in reuse:
@@ -105,7 +113,11 @@ class C14(core.Prop):
             else:
                 vals[k] = SymStr.mk(gg.build_number(tag + 'v_' + k, shape['numform']))
         for k in shape['free']:
-            vals[k] = SymStr.mk([sym_alnum("%sf_%s_%d" % (tag, k, j)) for j in range(2)])
+            if shape.get('wide'):
+                # a value with a character in the middle that is not alphanumeric (blank, underscore, ...): kept verbatim all the same
+                vals[k] = SymStr.mk([sym_alnum("%sf_%s_0" % (tag, k)), sym_char("%sf_%s_1" % (tag, k), allowed=WIDE), sym_alnum("%sf_%s_2" % (tag, k))])
+            else:
+                vals[k] = SymStr.mk([sym_alnum("%sf_%s_%d" % (tag, k, j)) for j in range(2)])
         return vals
 
     @staticmethod
@@ -301,5 +313,5 @@ class C14(core.Prop):
 PROP = C14()
 
 # shape families added after the first complete pass (DESIGN 8.6-8.11); appended to the bounds written into the evidence
-BOUNDS_ADDED = '; plus: upper-case free key, from_fragment_dicts entry, fragment that is a single annotated atom'
+BOUNDS_ADDED = '; plus: upper-case free key, from_fragment_dicts entry, fragment that is a single annotated atom, free values with a non-alphanumeric character (blank _ - + . * / @) in the middle, free values with a non-alphanumeric character (blank _ - + . * / @) in the middle'
 PROP.BOUNDS = {k: v + BOUNDS_ADDED for k, v in PROP.BOUNDS.items()}
